@@ -18,8 +18,8 @@ thread_local! {
 }
 
 /// Fuzz mode: while a tape is set on this thread, every `Rng` created here reads its first
-/// draws from the tape (from offset 0, xor a constant derived from the stream's seed, so that the
-/// same seed replays the same stream and different streams are decorrelated) and continues with
+/// draws from the tape (from offset 0, unmodified: re-deriving a stream replays it; streams with
+/// different seeds share the tape prefix and differ in their continuation) and continues with
 /// the ordinary generator seeded from seed and tape contents once the tape is used up. A
 /// coverage-guided fuzzer mutating the tape thereby mutates the decisions of every generator.
 pub fn set_tape(t: Option<Vec<u8>>) {
@@ -51,9 +51,11 @@ impl Rng {
                 h ^= *b as u64;
                 h = h.wrapping_mul(0x100000001b3);
             }
-            let mut m = seed;
-            mix = splitmix(&mut m);
-            x ^= h;
+            // no mixing of tape bytes: a raw draw (`next_u64() as i32`, `f32::from_bits`) must carry the
+            // tape's bytes unchanged, so that the fuzzer's compare feedback (value profile, table of
+            // recent compares) can plant the constants pushr compares against into operands
+            mix = 0;
+            x ^= h ^ seed.rotate_left(17);
         }
         let s = [splitmix(&mut x), splitmix(&mut x), splitmix(&mut x), splitmix(&mut x)];
         Rng { s, tape, pos: 0, mix }
